@@ -31,6 +31,10 @@ with quiet():
     import cyecca.lie as lie
     from cyecca.lie import group_se3 as _se3m, group_se23 as _se23m, group_so3 as _so3m
 
+try:  # keep casadi's numpy interop in its legacy mode silently (no FutureWarning noise on stderr)
+    ca.GlobalOptions.setNumpyMode(-1)
+except Exception:
+    pass
 _cy_file = os.path.abspath(cyecca.__file__)
 if not _cy_file.startswith(REPO + os.sep):
     raise RuntimeError("cyecca imported from %s, not from the tree under test %s" % (_cy_file, REPO))
@@ -270,13 +274,15 @@ PRODUCTS_QUICK = [
     ("SO3Dcm", "SE2"),
     ("SE23Mrp", "SO3Quat", "R3"),
     ("R2", "SO3EulerB321", "SE3Mrp"),
+    ("SE3Mrp", "SE3Quat"),  # repeated non-abelian algebra
+    ("SO3Quat", "SO3EulerB321", "SO3Mrp"),  # three times the same algebra, different parameterisations
 ]
 PRODUCTS_THOROUGH = PRODUCTS_QUICK + [
     ("SO2", "SO2"),
-    ("SE3Mrp", "SE3Quat"),
     ("SE23Quat", "SE2"),
     ("R3", "R3", "R2"),
-    ("SO3Dcm", "SO3EulerB321", "SO3Mrp"),
+    ("SE2", "R3", "SE2"),
+    ("SO3Dcm", "SO3Dcm"),
     ("SE3(Dcm)", "SO2"),
     ("SE23(Euler)", "R2"),
     ("SO3Quat", "SE23Quat", "SE3(Euler)"),
